@@ -25,6 +25,9 @@ type FuncResult struct {
 	Inlined  []string
 	Havocs   []string
 	Notes    []string
+	// ClauseErrs: clauses (by label) that could not be interpreted on this code (an identifier they use no longer
+	// exists, ...). Only those clauses are left undecided; the other clauses of the function are still checked.
+	ClauseErrs map[string]string
 }
 
 // VerifyFunc generates all obligations of one function against its contract.
@@ -65,6 +68,7 @@ func (ex *Exec) VerifyFunc(ct *Contract) (res *FuncResult) {
 		res.Inlined = keys(tc.inlined)
 		res.Havocs = keys(tc.havocs)
 		res.Notes = keys(tc.notes)
+		res.ClauseErrs = tc.clauseErrs
 		for _, o := range res.Obls {
 			o.Bounded = tc.bounded
 		}
@@ -194,7 +198,8 @@ func (ex *Exec) VerifyFunc(ct *Contract) (res *FuncResult) {
 		for _, en := range ct.Ensures {
 			t, err := env.TrBool(en.Expr)
 			if err != nil {
-				sfail("ensures[%s] of %s: %v", en.Label, ShortName(ct.Func), err)
+				tc.clauseErr(en.Label, fmt.Sprintf("ensures %q: %v", en.Src, err))
+				continue
 			}
 			tc.addObl(&Obligation{Name: fmt.Sprintf("%s/%s/post:ret%d", ShortName(fn.String()), en.Label, site), Func: fn.String(), Label: en.Label,
 				Kind: "post", Decls: append([]string(nil), st2.decls...), PC: append([]T(nil), st2.pc...), Goal: t, Notes: append([]string(nil), st2.notes...),
